@@ -39,7 +39,7 @@ type relayWalker struct {
 	deferred map[string]*ast.FuncLit
 }
 
-func exprStr(e ast.Expr) string {
+func relayExprStr(e ast.Expr) string {
 	switch x := e.(type) {
 	case nil:
 		return ""
@@ -48,33 +48,33 @@ func exprStr(e ast.Expr) string {
 	case *ast.BasicLit:
 		return x.Value
 	case *ast.SelectorExpr:
-		return exprStr(x.X) + "." + x.Sel.Name
+		return relayExprStr(x.X) + "." + x.Sel.Name
 	case *ast.ParenExpr:
-		return "(" + exprStr(x.X) + ")"
+		return "(" + relayExprStr(x.X) + ")"
 	case *ast.StarExpr:
-		return "*" + exprStr(x.X)
+		return "*" + relayExprStr(x.X)
 	case *ast.UnaryExpr:
-		return x.Op.String() + exprStr(x.X)
+		return x.Op.String() + relayExprStr(x.X)
 	case *ast.BinaryExpr:
-		return exprStr(x.X) + x.Op.String() + exprStr(x.Y)
+		return relayExprStr(x.X) + x.Op.String() + relayExprStr(x.Y)
 	case *ast.CallExpr:
 		args := make([]string, len(x.Args))
 		for i, a := range x.Args {
-			args[i] = exprStr(a)
+			args[i] = relayExprStr(a)
 		}
-		return exprStr(x.Fun) + "(" + strings.Join(args, ",") + ")"
+		return relayExprStr(x.Fun) + "(" + strings.Join(args, ",") + ")"
 	case *ast.CompositeLit:
 		args := make([]string, len(x.Elts))
 		for i, a := range x.Elts {
-			args[i] = exprStr(a)
+			args[i] = relayExprStr(a)
 		}
-		return exprStr(x.Type) + "{" + strings.Join(args, ",") + "}"
+		return relayExprStr(x.Type) + "{" + strings.Join(args, ",") + "}"
 	case *ast.FuncLit:
 		return "func"
 	case *ast.IndexExpr:
-		return exprStr(x.X) + "[" + exprStr(x.Index) + "]"
+		return relayExprStr(x.X) + "[" + relayExprStr(x.Index) + "]"
 	case *ast.SliceExpr:
-		return exprStr(x.X) + "[:]"
+		return relayExprStr(x.X) + "[:]"
 	}
 	return fmt.Sprintf("<%T>", e)
 }
@@ -101,7 +101,7 @@ func (w *relayWalker) valStr(e ast.Expr) string {
 	if v, ok := w.intOf(e); ok {
 		return strconv.FormatInt(v, 10)
 	}
-	s := exprStr(e)
+	s := relayExprStr(e)
 	if strings.HasSuffix(s, ".Status") {
 		return "Status"
 	}
@@ -154,7 +154,7 @@ func (w *relayWalker) ifStmt(s *ast.IfStmt) {
 			if id, ok := c.Fun.(*ast.Ident); ok && id.Name == "recover" && len(c.Args) == 0 {
 				w.emit("recover")
 				for _, c := range splitAnd(s.Cond) {
-					w.emit("cond:%s", exprStr(c))
+					w.emit("cond:%s", relayExprStr(c))
 				}
 				w.block(s.Body.List)
 				w.elseOf(s)
@@ -170,12 +170,12 @@ func (w *relayWalker) ifStmt(s *ast.IfStmt) {
 		if v, ok := w.intOf(c.Args[0]); ok {
 			w.emit("guard:Enabled:%d", v)
 		} else {
-			w.emit("guard:Enabled:%s", exprStr(c.Args[0]))
+			w.emit("guard:Enabled:%s", relayExprStr(c.Args[0]))
 		}
 	} else if b, ok := s.Cond.(*ast.BinaryExpr); ok && b.Op == token.EQL && selName(b.X) == "Status" {
 		w.emit("if:Status==%s", w.valStr(b.Y))
 	} else {
-		w.emit("if:%s", exprStr(s.Cond))
+		w.emit("if:%s", relayExprStr(s.Cond))
 	}
 	w.block(s.Body.List)
 	w.elseOf(s)
@@ -194,7 +194,7 @@ func (w *relayWalker) elseOf(s *ast.IfStmt) {
 }
 
 func (w *relayWalker) call(c *ast.CallExpr) {
-	fun := exprStr(c.Fun)
+	fun := relayExprStr(c.Fun)
 	switch {
 	case selName(c.Fun) == "Handle" && len(c.Args) == 2:
 		tag := ""
@@ -210,7 +210,7 @@ func (w *relayWalker) call(c *ast.CallExpr) {
 		for _, a := range c.Args {
 			ac, ok := a.(*ast.CallExpr)
 			if !ok || len(ac.Args) != 2 {
-				w.recAttrs = append(w.recAttrs, "?"+exprStr(a))
+				w.recAttrs = append(w.recAttrs, "?"+relayExprStr(a))
 				continue
 			}
 			key, _ := evalString(ac.Args[0], nil)
@@ -254,11 +254,11 @@ func (w *relayWalker) stmt(s ast.Stmt) {
 		// r := slog.NewRecord(t, LEVEL, msg, pc) starts a record; other assignments carry no event
 		for _, r := range x.Rhs {
 			if c, ok := r.(*ast.CallExpr); ok {
-				if exprStr(c.Fun) == "slog.NewRecord" && len(c.Args) == 4 {
+				if relayExprStr(c.Fun) == "slog.NewRecord" && len(c.Args) == 4 {
 					w.recLevel, w.recAttrs = w.valStr(c.Args[1]), nil
 				} else if containsCall(c, "recover") {
 					w.emit("recover-outside-if")
-				} else if exprStr(c.Fun) == "store.I.HandlerFunc" {
+				} else if relayExprStr(c.Fun) == "store.I.HandlerFunc" {
 					w.emit("callHandler")
 				}
 			}
@@ -278,7 +278,7 @@ func (w *relayWalker) stmt(s ast.Stmt) {
 	case *ast.DeferStmt:
 		fl, ok := x.Call.Fun.(*ast.FuncLit)
 		if !ok {
-			w.emit("defer:%s", exprStr(x.Call.Fun))
+			w.emit("defer:%s", relayExprStr(x.Call.Fun))
 			return
 		}
 		kind := "other"
@@ -309,7 +309,7 @@ func (w *relayWalker) block(l []ast.Stmt) {
 	}
 }
 
-func leanStrList(l []string) string {
+func relayLeanStrList(l []string) string {
 	q := make([]string, len(l))
 	for i, s := range l {
 		q[i] = strconv.Quote(s)
@@ -453,13 +453,13 @@ func extractRelay() {
 
 	l := newLean("Relay", "logger/httpd.go, httpd/store.go, logger/level.go")
 	l.printf("/-- top-level statements of `(*Logger).Relay`, in source order -/\n")
-	l.printf("def relayEvents : List String := %s\n\n", leanStrList(body))
+	l.printf("def relayEvents : List String := %s\n\n", relayLeanStrList(body))
 	l.printf("/-- the first deferred function (REQ_END) -/\n")
-	l.printf("def relayEndEvents : List String := %s\n\n", leanStrList(endEv))
+	l.printf("def relayEndEvents : List String := %s\n\n", relayLeanStrList(endEv))
 	l.printf("/-- the second deferred function (recover) -/\n")
-	l.printf("def relayRecoverEvents : List String := %s\n\n", leanStrList(recEv))
+	l.printf("def relayRecoverEvents : List String := %s\n\n", relayLeanStrList(recEv))
 	l.printf("/-- statement order interpreted by `Glb.Relay.relay` -/\n")
-	l.printf("def relayBody : List String := %s\n\n", leanStrList(order))
+	l.printf("def relayBody : List String := %s\n\n", relayLeanStrList(order))
 
 	has := func(ev []string, s string) bool {
 		for _, e := range ev {
@@ -470,9 +470,9 @@ func extractRelay() {
 		return false
 	}
 	l.printf("/-- attributes (key=expression) of the REQ_BEG, REQ_END and Error records -/\n")
-	l.printf("def relayBegAttrs : List String := %s\n", leanStrList(firstAttrs(top)))
-	l.printf("def relayEndAttrs : List String := %s\n", leanStrList(firstAttrs(endW)))
-	l.printf("def relayErrAttrs : List String := %s\n\n", leanStrList(firstAttrs(recW)))
+	l.printf("def relayBegAttrs : List String := %s\n", relayLeanStrList(firstAttrs(top)))
+	l.printf("def relayEndAttrs : List String := %s\n", relayLeanStrList(firstAttrs(endW)))
+	l.printf("def relayErrAttrs : List String := %s\n\n", relayLeanStrList(firstAttrs(recW)))
 
 	// parameters
 	begLevel, begGuarded := int64(0), false
@@ -537,8 +537,8 @@ func extractRelay() {
 	_, wEv := walk(wf.Body.List)
 	_, whEv := walk(whf.Body.List)
 	l.printf("/-- `(*ResponseWriter).Write` and `WriteHeader` -/\n")
-	l.printf("def storeWriteEvents : List String := %s\n", leanStrList(wEv))
-	l.printf("def storeWriteHeaderEvents : List String := %s\n", leanStrList(whEv))
+	l.printf("def storeWriteEvents : List String := %s\n", relayLeanStrList(wEv))
+	l.printf("def storeWriteHeaderEvents : List String := %s\n", relayLeanStrList(whEv))
 	impA, impB, imp := int64(0), int64(0), false
 	if i := indexPrefix(wEv, "WriteHeader:"); i >= 0 {
 		if b, ok := atoiSuffix(wEv[i], "WriteHeader:"); ok {
